@@ -308,3 +308,75 @@ func anyC11Ambiguous(pl ProofList) bool {
 	}
 	return false
 }
+
+// ---- keyshare protocol driver (the exchange exactly as the API prescribes)
+
+type kssRun struct {
+	keys        map[string]*gabikeys.PublicKey // keys known to the keyshare server (by Issuer name)
+	kssSecret   *big.Int
+	userRandom  *big.Int
+	commRequest KeyshareCommitmentRequest
+	hashInput   []KeyshareUserChallengeInput[string]
+	kssRandom   *big.Int
+	kssComm     []*ProofPCommitment
+	respRequest KeyshareResponseRequest[string]
+	challenge   *big.Int
+	proofP      *ProofP
+	labels      []string
+	keysSlice   []*gabikeys.PublicKey
+	partic      []bool
+}
+
+// kssPrepare runs steps 1-4 (everything before the server's response).
+func kssPrepare(builders ProofBuilderList, keys map[string]*gabikeys.PublicKey, kssSecret, ctx, nonce *big.Int, issig bool) (*kssRun, error) {
+	r := &kssRun{keys: keys, kssSecret: kssSecret}
+	for _, b := range builders {
+		r.keysSlice = append(r.keysSlice, b.PublicKey())
+		_, in := keys[b.PublicKey().Issuer]
+		r.partic = append(r.partic, in)
+		if in {
+			r.labels = append(r.labels, "keyshare server")
+		} else {
+			r.labels = append(r.labels, "")
+		}
+	}
+	var err error
+	if r.userRandom, err = common.RandomBigInt(gabikeys.DefaultSystemParameters[1024].LmCommit); err != nil {
+		return nil, err
+	}
+	randomizers := map[string]*big.Int{"secretkey": r.userRandom}
+	if r.commRequest, r.hashInput, err = KeyshareUserCommitmentRequest(builders, randomizers, keys); err != nil {
+		return nil, err
+	}
+	if r.kssRandom, r.kssComm, err = NewKeyshareCommitments(kssSecret, r.keysSlice); err != nil {
+		return nil, err
+	}
+	for i, b := range builders {
+		if r.partic[i] {
+			b.SetProofPCommitment(r.kssComm[i])
+		}
+	}
+	if r.respRequest, r.challenge, err = KeyshareUserResponseRequest(builders, randomizers, r.hashInput, ctx, nonce, issig); err != nil {
+		return nil, err
+	}
+	return r, nil
+}
+
+// kssFinish runs the server's response and builds the joint proof list.
+func (r *kssRun) kssFinish(builders ProofBuilderList) (ProofList, error) {
+	var err error
+	if r.proofP, err = KeyshareResponse(r.kssSecret, r.kssRandom, r.commRequest, r.respRequest, r.keys); err != nil {
+		return nil, err
+	}
+	proofPs := make([]*ProofP, len(builders))
+	for i := range builders {
+		if r.partic[i] {
+			proofPs[i] = r.proofP
+		}
+	}
+	return builders.BuildDistributedProofList(r.challenge, proofPs)
+}
+
+func keyshareP(kssSecret *big.Int, pk *gabikeys.PublicKey) *big.Int {
+	return new(big.Int).Exp(pk.R[0], kssSecret, pk.N)
+}
